@@ -25,8 +25,8 @@ func init() {
 // never returned or stored as text (confirmed by reading; one reason each).
 var measuredOnly = map[string]string{
 	"rag.(*OrphanedContentDetector).WouldCreateOrphan": "the two halves are only measured with len(TrimSpace(..)); nothing is returned or stored",
-	"rag.isAbbreviation":                               "the word before the period is only compared with ASCII abbreviations",
-	"rag.isAbbreviationAt":                             "the word before the period is only compared with ASCII abbreviations",
+	"rag.isAbbreviation":   "the word before the period is only compared with ASCII abbreviations",
+	"rag.isAbbreviationAt": "the word before the period is only compared with ASCII abbreviations",
 }
 
 // stringIndex decodes s[i] on a string (go/ssa emits Index, older versions Lookup).
